@@ -287,7 +287,13 @@ def replay(cand):
         lib2.write(fn, overwrite=True)
         shift = n * np.log(1000.0)
         for tag, src, inmem in (("in_memory", lib2, True), ("file", fn, False), ("object", lib2, False)):
-            ll2 = np.asarray(tj.TheJoker(p2, rng=np.random.default_rng(77)).marginal_ln_likelihood(d2, src, in_memory=inmem))
+            # (the km/s run above worked: if the twin in other units fails, that failure is itself a dependence on the units)
+            try:
+                ll2 = np.asarray(tj.TheJoker(p2, rng=np.random.default_rng(77)).marginal_ln_likelihood(d2, src, in_memory=inmem))
+                tj.TheJoker(p2, rng=np.random.default_rng(77)).rejection_sample(d2, src, in_memory=inmem)
+            except Exception as e_twin:
+                bad.append("%s: the twin in other units raised %s: %s (the km/s problem runs)" % (tag, type(e_twin).__name__, str(e_twin)[:100]))
+                continue
             if not np.allclose(ll2 + shift, ref_ll, rtol=1e-6, atol=1e-6):
                 bad.append("%s: ll in m/s differs from ll in km/s by more than the Jacobian n*ln(1000) (max dev %.3g)" % (tag, np.max(np.abs(ll2 + shift - ref_ll))))
             s2 = tj.TheJoker(p2, rng=np.random.default_rng(77)).rejection_sample(d2, src, in_memory=inmem)
